@@ -13,6 +13,7 @@ EXPLANATION = (
     "These are necessary conditions visible in the shape of the code on every path; termination, timing "
     "and the behaviour of the pools themselves are NOT decided."
     ' Every early return of the completion callback is a sanctioned one (stale call id / aborting / no retrieval callback); every attribute written while a call runs is re-initialised by a per-call prologue/epilogue.'
+    " A registered error is always raised: _wait_retrieval answers True whenever _aborting is set (C04.ERROR-SURFACES, defect D-P4 repaired); the tracker's mode is decided by one capability flag (C01.STATUS-MODE)."
 )
 ASSUMPTIONS = [
     "CPython ast semantics; statement-level CFG with implicit exceptions modelled only inside try bodies",
